@@ -364,7 +364,13 @@ def matrix_solve(M, b, method='default'):
         if N >= 10:
             warn("""
             This may take a while...  Solving a system of equations is O(%d^3) for a matrix of size %dx%d""" % (N, N, N))
-        x = M.solve(b, method=method)
+        if method == 'QR':
+            # SymPy's QRsolve uses Q.T * b; this is only correct
+            # for real matrices (phasor analysis has complex ones).
+            Q, R = M.QRdecomposition()
+            x = R.upper_triangular_solve(Q.H * b)
+        else:
+            x = M.solve(b, method=method)
     return x
 
     def canonical(self):
